@@ -102,7 +102,7 @@ def random_systems(chk, n_sys, seed):
                     continue
                 if solver != "LU" and k % 2 == (0 if trans else 1):
                     # warm start on a right-hand side of small magnitude: a guess 20% off the solution must be iterated on, the
-                    # returned vector may not be worse than 10x the cold-start residual (relative) or 2e-2 |b|
+                    # returned vector may not be worse than 10x the cold-start residual or 2e-2 |b| (MINRES: backward error, floor 1e-3)
                     bs = b * (1e-6 if (k // 2) % 2 == 0 else 1e3)       # ... and of large magnitude
                     try:
                         exact = np.linalg.solve(Ae, bs)
@@ -111,10 +111,18 @@ def random_systems(chk, n_sys, seed):
                     except LinearSolverError:
                         chk.case(("rand.warm", k, solver, trans, "raised"))
                         continue
-                    rc = np.abs(Ae @ cold - bs).max() / np.abs(bs).max()
-                    rw = np.abs(Ae @ warm - bs).max() / np.abs(bs).max()
+                    if solver == "MINRES":
+                        # MINRES states its tolerance as a backward error |r| / (|A| |x| + |b|)
+                        nA = np.linalg.norm(Ae, 2)
+                        rc = np.linalg.norm(Ae @ cold - bs) / (nA * np.linalg.norm(cold) + np.linalg.norm(bs))
+                        rw = np.linalg.norm(Ae @ warm - bs) / (nA * np.linalg.norm(warm) + np.linalg.norm(bs))
+                        floor = 1e-3
+                    else:
+                        rc = np.abs(Ae @ cold - bs).max() / np.abs(bs).max()
+                        rw = np.abs(Ae @ warm - bs).max() / np.abs(bs).max()
+                        floor = 2e-2
                     chk.case(("rand.warm", k, solver, trans))
-                    if not (np.isfinite(warm).all() and rw <= max(10.0 * rc, 2e-2)):
+                    if not (np.isfinite(warm).all() and rw <= max(10.0 * rc, floor)):
                         chk.kernel_violation(("lin.random.warmstart", solver), {"n": n, "relres_cold": float(rc), "relres_warm": float(rw), "trans": trans})
         if k % 2 == 0:
             # KKT-like symmetric indefinite matrix with tiny (non-zero) Hessian diagonal and O(1) coupling: moderate condition
